@@ -375,7 +375,7 @@ func check(data []byte) (msg string, inScope bool) {
 // and begins with a space or a tab.
 func leadingWhitespaceMultiline(v any) bool {
 	bad := func(s string) bool {
-		return strings.Contains(s, "\n") && (strings.HasPrefix(s, " ") || strings.HasPrefix(s, "\t"))
+		return strings.Contains(s, "\n") && (strings.HasPrefix(s, " ") || strings.HasPrefix(s, "\t") || strings.HasPrefix(s, "\n") || strings.HasPrefix(s, "\r"))
 	}
 	switch x := v.(type) {
 	case string:
